@@ -43,3 +43,10 @@ From Verif Require Import Parse.TypeRecover Parse.TypeRecoverProofs.
 Theorem C03_type_parser_with_recovery_is_total : forall ts, last_eof ts -> exists t errs, parse_typeR ts = Some (t, errs).
 Proof. exact parse_typeR_total. Qed.
 Print Assumptions C03_type_parser_with_recovery_is_total.
+
+(* the statement family (Parse/StmtModel.v): its only loop, over a dotted name, is bounded by the input -- the parser of these sixteen
+   statements never exhausts its fuel, on any token list *)
+From Verif Require Import Parse.StmtModel Parse.StmtProofs.
+Theorem C03_statement_family_terminates : forall ts, ddl_body ts <> Some Fuel.
+Proof. exact ddl_body_nofuel. Qed.
+Print Assumptions C03_statement_family_terminates.
